@@ -375,11 +375,20 @@ def run(tier, seed):
     rep.rule = (
         "scenarios %r; for each, every file-system operation boundary of the action (stat, lstat, readlink, mkdir, open, each half of each write, close, remove, rename, symlink, listdir; counted by a dry run under "
         "the shim) is a crash point: the process is terminated with os._exit(137) right before it, then fresh processes load the previously committed paths, re-evaluate the pipeline and load everything. "
-        "Thorough adds a second kill at every boundary of the recovery evaluation (for every 4th first crash point) and real SIGKILLs injected by strace on entering "
-        "each mutating system call of a real interpreter process. distinct_nontrivial = crash points whose recovery was fully observed and correct." % ([s["name"] for s in scs],)
+        "Real SIGKILLs injected by strace on entering each mutating system call of a real interpreter process: three scenarios in the quick tier, all in the thorough tier. Thorough adds a second kill at every boundary of the recovery evaluation (for every 4th first crash point). "
+        "distinct_nontrivial = crash points whose recovery was fully observed and correct." % ([s["name"] for s in scs],)
     )
     jobs = [(i, None, False) for i in range(len(scs))]
     results = core.fork_map(scenario_job, jobs, timeout=3000)
+    if tier != "thorough":
+        # real kills of a real interpreter (no shim: the kernel's and Python's own buffering) on two scenarios, rotating with the seed
+        picks = sorted(set([0, (4 + seed) % len(scs), len(scs) - 2]))
+        ex = core.fork_map(strace_job, picks, timeout=1500)
+        for i, r in zip(picks, ex):
+            if isinstance(r, core.JobFailed):
+                rep.inconclusive.append("strace job of %s: %r" % (scs[i]["name"], r))
+            else:
+                rep.merge(r)
     if tier == "thorough":
         extra = [("double", (i, 4, (seed + i) % 4)) for i in range(len(scs))] + [("strace", i) for i in range(len(scs))]
         ex = core.fork_map(lambda j: {"double": double_crash_job, "strace": strace_job}[j[0]](j[1]), extra, timeout=3300)
